@@ -109,11 +109,11 @@ def navigations(w, all_paths):
     for S in ("vt.aa", "vt.bb", "vt.cc"):
         yield ("metador.query", lambda S=S: list(w.metador.query(S)))
     yield ("metador.query-node", lambda: list(w.metador.query("vt.aa", node=w)))
-    for r in range(1, 3):
-        for fs in itertools.combinations(FLAGS, r):
-            yield ("restrict-more", lambda fs=fs: [w.restrict(**{f: True for f in fs})])
     for f in FLAGS:
         yield ("restrict-false", lambda f=f: [w.restrict(**{f: False})])
+
+
+MORE = [(f,) for f in FLAGS] + [tuple(FLAGS)]
 
 
 def raw_dump(cont):
@@ -310,7 +310,24 @@ def explore(task):
                     # restrict acts in place: flags may only grow
                     if not before <= flags_of(w):
                         report(_viol(task, "restrict-removed-flag", f"{prim} on {w.name} turned flags {sorted(before)} into {sorted(flags_of(w))}", chain + [prim]))
-                for r in res:
+                # every wrapper handed out is also explored with further restrictions added to it. restrict() acts in
+                # place, so each variant is applied to a FRESH wrapper obtained by repeating the navigation step
+                # (never to the object that represents the current state or its relatives).
+                variants = []
+                if not prim.startswith("restrict") and prim not in ("parent", "file"):  # those may hand out SHARED objects
+                    for fs in MORE:
+                        try:
+                            again = th()
+                        except Exception:
+                            break
+                        for r2 in again:
+                            if r2 is not None and hasattr(r2, "acl") and r2 is not w and not set(fs) <= flags_of(r2):
+                                try:
+                                    r2.restrict(**{f: True for f in fs})
+                                    variants.append(r2)
+                                except Exception:
+                                    pass
+                for r in list(res) + variants:
                     if r is None:
                         continue
                     if not hasattr(r, "acl"):
